@@ -1,16 +1,12 @@
-/-
-  Driver for the GENERATED kernels + hand-written glue = the model of the implementation.
-  `lake env lean --run GenDriver.lean < requests > answers`
--/
+/- driver handlers: GenResample (model of the implementation = generated kernels + hand-written glue) -/
 import YawVerif.Drv.Common
 import YawVerif.Model.CorrFuncGlue
 import YawVerif.Generated.Nz
 import YawVerif.Model.HistJk
-import YawVerif.Model.Binning
 
 open Yaw Yaw.Proto Yaw.Drv
 
-namespace Yaw.GenDrv
+namespace Yaw.Drv.GenResample
 
 /-- impl value with nan detection (zero denominators) -/
 def implTerm (n : Nat) (c : NC) (k : Option Nat) : Option Rat :=
@@ -134,17 +130,6 @@ def hHistJk : R String := do
       out := out.push (fmtRat (Impl.histJk N (fun i => c.getD (i * B + b) 0) k))
   pure (join out)
 
-/-- `bin closedRight B edges(B+1) n (z w)*n` → `trees <B sums> hist <B sums>` of the implementation model -/
-def hBin : R String := do
-  let cr ← Proto.bool
-  let B ← nat
-  let edges ← rats (B + 1)
-  let n ← nat
-  let flat ← rats (2 * n)
-  let objs := (List.range n).map fun i => (flat.getD (2 * i) 0, flat.getD (2 * i + 1) 0)
-  let t := Bin.binSums (Bin.binIndex cr (vec edges) B) B objs
-  let h := Bin.binSums (Bin.histBin cr (vec edges) B) B objs
-  pure (join ((#["trees"] ++ (t.map fmtRat).toArray ++ #["hist"] ++ (h.map fmtRat).toArray)))
 
 def handler (kind : String) : R String :=
   match kind with
@@ -154,10 +139,6 @@ def handler (kind : String) : R String :=
   | "nz" => hNz
   | "histnorm" => hHistNorm
   | "histjk" => hHistJk
-  | "bin" => hBin
   | _ => throw s!"unknown kind {kind}"
 
-end Yaw.GenDrv
-
-def main : IO Unit := do
-  Yaw.Proto.loop Yaw.GenDrv.handler (← IO.getStdin) (← IO.getStdout)
+end Yaw.Drv.GenResample
